@@ -8,30 +8,37 @@ package absnfs
 //@ also AbsfsNFS.CreateWithContext
 //@ requires acInv(s.attrCache) && dirCacheApart(s)
 //@ ensures [caches-inv] {C26, C02} acInv(s.attrCache) && s.attrCache == old(s.attrCache) && dirCacheApart(s) && s.dirCache == old(s.dirCache)
+//@ ensures [cache-ids-kept] {C04} old(acIds(s.attrCache)) ==> acIds(s.attrCache)
 
 //@ also AbsfsNFS.Create
 //@ requires acInv(s.attrCache) && dirCacheApart(s)
 //@ ensures [caches-inv] {C26, C02} acInv(s.attrCache) && s.attrCache == old(s.attrCache) && dirCacheApart(s) && s.dirCache == old(s.dirCache)
+//@ ensures [cache-ids-kept] {C04} old(acIds(s.attrCache)) ==> acIds(s.attrCache)
 
 //@ also AbsfsNFS.RemoveWithContext
 //@ requires acInv(s.attrCache) && dirCacheApart(s)
 //@ ensures [caches-inv] {C26, C02} acInv(s.attrCache) && s.attrCache == old(s.attrCache) && dirCacheApart(s) && s.dirCache == old(s.dirCache)
+//@ ensures [cache-ids-kept] {C04} old(acIds(s.attrCache)) ==> acIds(s.attrCache)
 
 //@ also AbsfsNFS.Remove
 //@ requires acInv(s.attrCache) && dirCacheApart(s)
 //@ ensures [caches-inv] {C26, C02} acInv(s.attrCache) && s.attrCache == old(s.attrCache) && dirCacheApart(s) && s.dirCache == old(s.dirCache)
+//@ ensures [cache-ids-kept] {C04} old(acIds(s.attrCache)) ==> acIds(s.attrCache)
 
 //@ also AbsfsNFS.RenameWithContext
 //@ requires acInv(s.attrCache) && dirCacheApart(s)
 //@ ensures [caches-inv] {C26, C02} acInv(s.attrCache) && s.attrCache == old(s.attrCache) && dirCacheApart(s) && s.dirCache == old(s.dirCache)
+//@ ensures [cache-ids-kept] {C04} old(acIds(s.attrCache)) ==> acIds(s.attrCache)
 
 //@ also AbsfsNFS.Rename
 //@ requires acInv(s.attrCache) && dirCacheApart(s)
 //@ ensures [caches-inv] {C26, C02} acInv(s.attrCache) && s.attrCache == old(s.attrCache) && dirCacheApart(s) && s.dirCache == old(s.dirCache)
+//@ ensures [cache-ids-kept] {C04} old(acIds(s.attrCache)) ==> acIds(s.attrCache)
 
 //@ also AbsfsNFS.Symlink
 //@ requires acInv(s.attrCache) && dirCacheApart(s)
 //@ ensures [caches-inv] {C26, C02} acInv(s.attrCache) && s.attrCache == old(s.attrCache) && dirCacheApart(s) && s.dirCache == old(s.dirCache)
+//@ ensures [cache-ids-kept] {C04} old(acIds(s.attrCache)) ==> acIds(s.attrCache)
 
 //@ also AbsfsNFS.SetAttr
 //@ requires acInv(s.attrCache) && dirCacheApart(s)
@@ -40,14 +47,17 @@ package absnfs
 //@ also AbsfsNFS.ReadWithContext
 //@ requires acInv(s.attrCache) && dirCacheApart(s)
 //@ ensures [caches-inv] {C26, C02} acInv(s.attrCache) && s.attrCache == old(s.attrCache) && dirCacheApart(s) && s.dirCache == old(s.dirCache)
+//@ ensures [cache-ids-kept] {C04} old(acIds(s.attrCache)) ==> acIds(s.attrCache)
 
 //@ also AbsfsNFS.Read
 //@ requires acInv(s.attrCache) && dirCacheApart(s)
 //@ ensures [caches-inv] {C26, C02} acInv(s.attrCache) && s.attrCache == old(s.attrCache) && dirCacheApart(s) && s.dirCache == old(s.dirCache)
+//@ ensures [cache-ids-kept] {C04} old(acIds(s.attrCache)) ==> acIds(s.attrCache)
 
 //@ also AbsfsNFS.Readlink
 //@ requires acInv(s.attrCache) && dirCacheApart(s)
 //@ ensures [caches-inv] {C26, C02} acInv(s.attrCache) && s.attrCache == old(s.attrCache) && dirCacheApart(s) && s.dirCache == old(s.dirCache)
+//@ ensures [cache-ids-kept] {C04} old(acIds(s.attrCache)) ==> acIds(s.attrCache)
 
 //@ also AbsfsNFS.LookupWithContext
 // (a lookup or attribute read works on the attribute cache only: the directory cache stays as it is)
